@@ -108,12 +108,14 @@ def run_banner(rid, kind, listing, siblings, packname):
     cwd = None
     try:
         where = tree.path(packname)
-        if rid % 4 == 1:
+        import zlib
+        pick = zlib.crc32(repr((sorted(listing), sorted(siblings), packname, kind)).encode("utf-8", "surrogatepass"))
+        if pick % 3 == 1:
             # the pack named by a path RELATIVE to the current directory / the filesystem's root ("My Pack", "./My Pack", "My Pack/")
             if kind == "native":
                 cwd = os.getcwd()
                 os.chdir(tree.root)
-            where = [packname, "./" + packname, packname + "/"][(rid // 4) % 3]
+            where = [packname, "./" + packname, packname + "/"][(pick // 3) % 3]
         sp = SimfilePack(where, filesystem=tree.fs)
         tree.listed.clear()
         b = sp.banner()
